@@ -111,6 +111,19 @@ class AsyncDiscAdapter:
         asyncio.set_event_loop(self.loop)
         self.g = g = Gates(self.loop)
         me = self
+
+        # a task created by a controlled program starts when the driver
+        # says so (between create_task() and the task's first step other
+        # programs may run)
+        def factory(loop, coro, **kw):
+            owner = OWNER.get()
+            if owner in g.tasks:
+                async def started(c=coro):
+                    await g.gate('task.start')
+                    return await c
+                return asyncio.Task(started(), loop=loop, **kw)
+            return asyncio.Task(coro, loop=loop, **kw)
+        self.loop.set_task_factory(factory)
         sio = socketio.AsyncServer(async_mode='asgi', async_handlers=False,
                                    ping_timeout=10 ** 6,
                                    monitor_clients=False)
